@@ -136,6 +136,9 @@ func runSeq(f []string) string {
 				}
 			case 'L':
 				x.k = top.Left()
+			case 'W':
+				// every (short) window of the profile has closed after this, see waitseq.go
+				time.Sleep(time.Duration(durOf(tree)) + 3*time.Millisecond)
 			}
 		}()
 		x.cb = atomic.LoadInt32(&cb) != before
@@ -168,6 +171,8 @@ func runSeq(f []string) string {
 			}
 		case 'L':
 			s = fmt.Sprintf("L%d", x.k)
+		case 'W':
+			s = "W"
 		case 'P':
 			s = "P:" + x.pk
 		}
@@ -521,9 +526,11 @@ func runRace(f []string) string {
 		}
 		done := make(chan struct{})
 		go func() { wg.Wait(); close(done) }()
+		tm := time.NewTimer(5 * time.Second)
 		select {
 		case <-done:
-		case <-time.After(5 * time.Second):
+			tm.Stop()
+		case <-tm.C:
 			return "hang"
 		}
 		if panicked {
@@ -605,6 +612,8 @@ func runCase(c string) (out string) {
 		return runRace(f)
 	case "fact":
 		return runFact(f)
+	case "urace":
+		return runURace(f)
 	}
 	return "unknown-case"
 }
@@ -847,7 +856,7 @@ func gen(r *vh.Rand, tier string) []string {
 	// released together, many short drains
 	nsr, sriters := 16, 12000
 	if tier == "thorough" {
-		nsr, sriters = 80, 60000
+		nsr, sriters = 64, 30000
 	}
 	for i := 0; i < nsr; i++ {
 		var t *node
@@ -883,6 +892,8 @@ func gen(r *vh.Rand, tier string) []string {
 		out = append(out, fmt.Sprintf("srace %s %d %d", t, g, it))
 	}
 	out = append(out, genFact(r, tier)...)
+	out = append(out, genURace(r, tier)...)
+	out = append(out, genWaitSeq(r, tier)...)
 	return out
 }
 
